@@ -67,6 +67,9 @@ class Aggregator:
                 self.c['fault:caller_mutation_applied_to_live_object'] += s['mut_applied']
                 self.c['fault:call_raised_partway(uninjected)'] += s['raised']
                 self.c['fault:argument_container_recycled_at_same_address'] += s.get('recycled', 0)
+                self.c['fault:caller_refilled_a_container_it_had_passed_and_passed_it_again'] += s.get('refilled', 0)
+                self.c['calls_reissued_with_equal_arguments_of_another_type'] += s.get('retyped', 0)
+                self.c['localised_fillers(one neighbourhood, one resolution)'] += s.get('local_bulk', 0)
                 self.c['capacity_filler_calls(unjudged)'] += s.get('bulk_calls', 0)
                 self.c['fault:clock_jumps_injected'] += s.get('clock_jumps', 0)
                 self.c['probe:clock_reads_by_library'] += s.get('clock_reads', 0)
